@@ -1,5 +1,6 @@
 import MpsProps.Anchors.C11
 import MpsProofs.Nonce
+import MpsProofs.Readers
 import MpsGen.Nonce
 import MpsGen.Sig
 import MpsGen.Hash
@@ -232,6 +233,31 @@ theorem gen_taproot_sign : MpsGen.Sig.taprootSign =
       "e.UnmarshalBinary(eHash)", "e.Mul(d).Add(k)", "e.Mul(d)", "z.MarshalBinary()",
       "make([]byte, 0, SignatureLen)" ] := by decide
 
+/-! ### 3b. The random bytes are ALL consumed, however the source splits them into Read calls -/
+
+/-- io.ReadFull over a source that answers every Read call with any positive number of bytes (one byte per call, a
+    buffered or network-backed source, ...) returns exactly the first 32 bytes of the stream: what the signer hedges its
+    nonce with does not depend on the chunking. -/
+theorem aux_independent_of_read_chunking (stream : Bytes) (chunks : List Nat)
+    (hpos : ∀ c ∈ chunks, 0 < c) (hlen : 32 ≤ chunks.length) (hs : 32 ≤ stream.length) :
+    Readers.readFull stream 32 chunks = stream.take 32 :=
+  Readers.readFull_eq_take chunks stream 32 hpos hlen hs
+
+/-- … hence the published BIP-340 nonce commitment is the one computed from the first 32 stream bytes. -/
+theorem bip340_nonce_independent_of_read_chunking (sk m stream : Bytes) (chunks : List Nat)
+    (hpos : ∀ c ∈ chunks, 0 < c) (hlen : 32 ≤ chunks.length) (hs : 32 ≤ stream.length) :
+    bip340NonceCommitment sk (.reader (Readers.readFull stream 32 chunks)) m
+      = bip340NonceCommitment sk (.reader (stream.take 32)) m := by
+  rw [aux_independent_of_read_chunking stream chunks hpos hlen hs]
+
+/-- Why ReadFull and not one Read call: with a source that delivers one byte per call, a single Read (count ignored)
+    leaves 31 of the 32 bytes zero — two streams that agree in their first byte only give the same auxiliary value. -/
+theorem single_read_loses_randomness :
+    ∃ s1 s2 : Bytes, s1.take 32 ≠ s2.take 32 ∧
+      Readers.readOnce s1 32 (List.replicate 32 1) = Readers.readOnce s2 32 (List.replicate 32 1) ∧
+      Readers.readFull s1 32 (List.replicate 32 1) ≠ Readers.readFull s2 32 (List.replicate 32 1) :=
+  ⟨5 :: List.replicate 31 1, 5 :: List.replicate 31 2, by decide, by decide, by decide⟩
+
 /-! ### 4. Non-vacuity -/
 
 def exCtx : FrostCtx :=
@@ -259,6 +285,7 @@ example : frostNonceInput (List.replicate 64 7) [1, 2] (List.replicate 32 0)
     ≠ frostNonceInput (List.replicate 64 7) [1] (2 :: List.replicate 31 0) := by decide
 example : ∀ x : Bytes, ((fun _ : Bytes => List.replicate 64 (0 : UInt8)) x).length = 64 := by intro x; simp
 example : Bip340.auxOf (.counter 1) ≠ Bip340.auxOf (.counter 2) := by decide
+example : (∀ c ∈ List.replicate 40 1, 0 < c) ∧ 32 ≤ (List.replicate 40 1).length ∧ 32 ≤ (List.replicate 96 (7 : UInt8)).length := by decide
 example : (3 : Nat) < 2 ^ 64 ∧ (4 : Nat) < 2 ^ 64 ∧ (3 : Nat) ≠ 4 := by decide
 
 end Mps.C11
